@@ -480,7 +480,7 @@ def check(ctx):
                         row["via"] = "package"
                     batches[p].append(("layout", (m, mode, via, oneshot, out), row))
     # a process that vanishes where the native call answers "nothing" instead of ESRCH (BSD)
-    VANISH = {"openbsd": ("net_connections", "threads"), "netbsd": ("net_connections", "num_fds"),
+    VANISH = {"openbsd": ("net_connections", "threads", "num_threads"), "netbsd": ("net_connections", "num_fds"),
               "freebsd": ("net_connections",)}
     for p, ms in VANISH.items():
         for m in ms:
@@ -494,6 +494,15 @@ def check(ctx):
                     if via == "package":
                         row["via"] = "package"
                     batches[p].append(("vanished", (m, via, oneshot), row))
+    # NetBSD: the command line of a process the kernel answers EINVAL for
+    if "cmdline" in plat_out["netbsd"]["methods"]:
+        for state in ("zombie", "gone"):
+            for via in ("module", "package"):
+                for oneshot in (False, True):
+                    row = {"k": "einval", "m": "cmdline", "pid": 5, "state": state, "oneshot": oneshot}
+                    if via == "package":
+                        row["via"] = "package"
+                    batches["netbsd"].append(("einval", (state, via, oneshot), row))
     # POSIX front end: signals to a live / zombie / vanished process, then queries on the same object
     for p in PLATFORMS:
         if p != "windows":
@@ -628,6 +637,17 @@ def check(ctx):
                                  "result, not ESRCH) -> %r, expected NoSuchProcess(pid=5)"
                                  % (via, p, m, " inside the oneshot() block that had looked at it alive" if oneshot else "",
                                     {k: v for k, v in ans.items() if k != "log"}),
+                                 {"platform": p, "row": row, "answer": ans})
+            elif tag == "einval":
+                state, via, oneshot = payload
+                ctx.case(("einval", p, state, via, oneshot))
+                if ans.get("cls") == "RunnerError":
+                    raise core.Machinery("runner error on einval row: %s" % ans.get("text"))
+                want = "ZombieProcess" if state == "zombie" else "NoSuchProcess"
+                if ans.get("cls") != want or ans.get("pid") != 5:
+                    ctx.disagree("conf:netbsd:cmdline-einval:%s" % state,
+                                 "%s netbsd.cmdline()%s with the native call answering EINVAL for a %s process -> %r, expected %s(pid=5)"
+                                 % (via, " inside oneshot()" if oneshot else "", state, {k: v for k, v in ans.items() if k != "log"}, want),
                                  {"platform": p, "row": row, "answer": ans})
             elif tag == "err":
                 via, e = payload
